@@ -113,6 +113,12 @@ def serde_stubs(cx, engine):
     def h_f64_from_f32(engine, st, fr, callee, argv, m):
         return F64(z3.fpFPToFP(z3.RNE(), argv[0].e, z3.Float64()))
 
+    def h_slice_range(engine, st, fr, callee, argv, m):
+        # sub-slicing a sequence payload of unknown length: in range or the standard out-of-range panic
+        ok = z3.Bool(seq(st, "slice_in_range"))
+        st.events.append(("slice_range", m.group(1), ok))
+        return ("fork", [(ok, Ref(("V", Blob("subslice"))), None), (z3.Not(ok), ("panic", "slice range out of bounds"), None)])
+
     def h_expect(engine, st, fr, callee, argv, m):
         o = argv[0]
         return ("fork", [(o.discr == 1, o.variants.get(1, [Blob("x")])[0], None),
@@ -123,6 +129,7 @@ def serde_stubs(cx, engine):
         (re.compile(r"^(?:lexpr::)?Cons::(car|cdr)$"), h_car),
         (re.compile(r"^<error::Error as serde::de::Error>::(invalid_type|invalid_value|custom)"), h_invalid_type),
         (re.compile(r"^<f64 as From<f32>>::from$"), h_f64_from_f32),
+        (re.compile(r"^<\[\w+\] as (?:std::ops::)?Index(?:Mut)?<(?:std::ops::)?(Range\w*)<usize>>>::index(?:_mut)?$"), h_slice_range),
         (re.compile(r"^(Vec::<Value>::|<&str as Into|<&\[u8\] as Into|Value::(cons|symbol|list)::<|<Vec<Value> as Into)"), h_blob),
     ]
 
